@@ -576,6 +576,25 @@ func refHandshake(h *hrun, role string, val uint32, rng *rand.Rand) *refPeer {
 		p.RC4, p.enc, p.dec = true, rsp.Out, rsp.In
 	}
 	s4 := rsp.Step4()
+	if rng.IntN(2) == 0 {
+		// as a real network does half of the time: the answer and the first payload bytes (all of the BT
+		// handshake, or only its first k bytes) arrive in one read
+		pay := myHS
+		if p.enc != nil {
+			pay = p.enc.Apply(append([]byte(nil), myHS...))
+		}
+		k := []int{len(pay), 1, 5, 20, 48, 67}[rng.IntN(6)]
+		if h.write(append(append([]byte(nil), s4...), pay[:k]...)) != nil {
+			p.Err = "closed during step 4"
+			return p
+		}
+		if k < len(pay) && h.write(pay[k:]) != nil {
+			p.Err = "closed during the BT handshake"
+			return p
+		}
+		p.Done = true
+		return p
+	}
 	if h.write(s4) != nil {
 		p.Err = "closed during step 4"
 		return p
@@ -1714,6 +1733,29 @@ func faultCase(c *vk.C, role string, wp sizePattern, failAt int, kind string, rn
 	}
 }
 
+// aftermathCase: a write fails on one encrypted connection; afterwards three other, healthy pairs move data
+// at the same time, with slow readers so that writes are pending in the transport most of the time. What one
+// connection went through must not show on another (they share nothing but the process).
+func aftermathCase(c *vk.C, rng *rand.Rand) {
+	for k := 0; k < 1+rng.IntN(3); k++ {
+		faultCase(c, []string{"server", "client"}[rng.IntN(2)], sizePattern{"32768", 32768}, []int{0, 1, 100, 32768, 40000}[rng.IntN(5)], faultKinds[rng.IntN(len(faultKinds))], rng)
+	}
+	if c.Violated() {
+		return
+	}
+	var wg sync.WaitGroup
+	for k := 0; k < 3; k++ {
+		wg.Add(1)
+		sub := rand.New(rand.NewPCG(rng.Uint64(), uint64(k)))
+		go func() {
+			defer wg.Done()
+			pairCase(c, sizePattern{"32768", 32768}, []sizePattern{{"7", 7}, {"100", 100}, {"4096", 4096}}[sub.IntN(3)], 384<<10, sub)
+		}()
+	}
+	wg.Wait()
+	c.Count("aftermath_runs", 1)
+}
+
 // shortSecretCase: a complete MSE + BT handshake and a data exchange in both directions with a secret that
 // starts with a zero byte.
 func shortSecretCase(c *vk.C, role string, rng *rand.Rand) {
@@ -1886,6 +1928,18 @@ func runStream(t *testing.T, r *vk.Run, race bool, base int) {
 			refCase(c, []string{"server", "client"}[k/2%2], prng, prng, full, rng)
 		}
 		c.FP(vk.Hash64("prng", k%4, k), true)
+		c.End()
+	}
+	// healthy connections after a failed write elsewhere
+	for k := 0; k < r.Env.N(16, 400); k++ {
+		i := idx
+		idx++
+		if !r.Mine(i) {
+			continue
+		}
+		c := r.Begin(i, map[string]any{"part": "stream", "mode": "aftermath", "k": k})
+		aftermathCase(c, r.Env.Rng(i))
+		c.FP(vk.Hash64("aftermath", k), true)
 		c.End()
 	}
 	// Diffie-Hellman secrets with a leading zero byte, both roles
